@@ -83,6 +83,7 @@ type ty struct {
 	a, b   *ty    // pair components
 	params []*ty  // func
 	res    *ty    // func
+	part   bool   // func: the result is in Option (the function can panic)
 }
 
 var (
@@ -107,6 +108,8 @@ var (
 	tMErr  = &ty{k: "merr"}     // match.MatcherError
 	tMErrs = &ty{k: "merrs"}
 	tSt    = &ty{k: "st"}
+	tSet   = &ty{k: "set"}  // set (map[string]struct{}) -> GoIO.GoSet
+	tSMap  = &ty{k: "smap"} // map[string]string -> GoIO.SMap
 	tBad   = &ty{k: "?"}
 )
 
@@ -157,6 +160,10 @@ func (t *ty) lean() string {
 		return "List GoSnaps.GoIO.MErr"
 	case "st":
 		return "GoSnaps.GoIO.St"
+	case "set":
+		return "GoSnaps.GoIO.GoSet"
+	case "smap":
+		return "GoSnaps.GoIO.SMap"
 	case "registry":
 		return "GoSnaps.GoIO.Registry"
 	case "sregistry":
@@ -168,7 +175,11 @@ func (t *ty) lean() string {
 		for _, x := range t.params {
 			p = append(p, x.lean())
 		}
-		return "(" + strings.Join(append(p, t.res.lean()), " → ") + ")"
+		r := t.res.lean()
+		if t.part {
+			r = "Option (" + r + ")"
+		}
+		return "(" + strings.Join(append(p, r), " → ") + ")"
 	}
 	return "?"
 }
@@ -236,6 +247,12 @@ var funcSpecs = []funcSpec{
 	{pkg: "snaps", name: "syncRegistry.reset", sig: "snapPath:string,testName:string->", out: "IO", recv: "s:registry"},
 	{pkg: "snaps", name: "syncStandaloneRegistry.getTestID", sig: "snapPath:string,snapPathRel:string->string,string", out: "IO", recv: "s:sregistry"},
 	{pkg: "snaps", name: "syncStandaloneRegistry.reset", sig: "snapPath:string->", out: "IO", recv: "s:sregistry"},
+	// Clean
+	{pkg: "snaps", name: "snapshotOccurrenceFMT", sig: "s:string,i:int->string", out: "IO"},
+	{pkg: "snaps", name: "standaloneOccurrenceFMT", sig: "s:string,i:int->string", out: "IO"},
+	{pkg: "snaps", name: "occurrences", sig: "tests:map[string]int,count:int,formatter:func(string, int) string->set", out: "IO"},
+	{pkg: "snaps", name: "examineSnaps", sig: "registry:map[string]map[string]int,used:[]string,runOnly:string,count:int,update:bool,sort:bool->[]string,error", out: "IO", fx: "rw",
+		extra:   []param{{"regexpMatchString", fnOf(pairOf(tBool, tBool), tText, tText)}, {"skipped", tTexts}}},
 	// the Match* flows
 	{pkg: "snaps", name: "handleError", sig: "t:testingT,err:any->", out: "IO", fx: "st"},
 	{pkg: "snaps", name: "takeSnapshot", sig: "objects:[]any->string", out: "IO"},
@@ -434,6 +451,29 @@ func goType(e ast.Expr) *ty {
 			return tText
 		case "testingT":
 			return tT
+		case "set":
+			return tSet
+		}
+	case *ast.MapType:
+		switch selName(e.Key) + ">" + func() string {
+			if m, ok := e.Value.(*ast.MapType); ok {
+				return "map[" + selName(m.Key) + "]" + selName(m.Value)
+			}
+			return selName(e.Value)
+		}() {
+		case "string>int":
+			return tMap1
+		case "string>map[string]int":
+			return tMap2
+		case "string>string":
+			return tSMap
+		}
+	case *ast.FuncType:
+		// func(string, int) string: a formatter; it may be a function that can panic
+		if e.Results != nil && len(e.Results.List) == 1 && len(e.Params.List) == 2 &&
+			selName(e.Params.List[0].Type) == "string" && selName(e.Params.List[1].Type) == "int" && selName(e.Results.List[0].Type) == "string" &&
+			len(e.Params.List[0].Names) <= 1 && len(e.Params.List[1].Names) <= 1 {
+			return &ty{k: "func", params: []*ty{tText, tInt}, res: tText, part: true}
 		}
 	case *ast.InterfaceType:
 		if e.Methods == nil || len(e.Methods.List) == 0 {
@@ -733,6 +773,11 @@ func (t *ftr) binary(e *ast.BinaryExpr) ex {
 		if k == "int" {
 			return ex{"(" + x.s + " - " + y.s + ")", tInt, p}
 		}
+	case token.QUO:
+		if k == "int" {
+			t.partial = true
+			return ex{"(← GoSnaps.GoIO.intDiv " + x.s + " " + y.s + ")", tInt, true}
+		}
 	case token.EQL, token.NEQ:
 		if k == "text" || k == "int" || k == "byte" || k == "bool" {
 			op := " == "
@@ -774,6 +819,27 @@ func (t *ftr) args(name string, call *ast.CallExpr, params []*ty) ([]string, boo
 	out := make([]string, len(params))
 	p := false
 	for i, a := range call.Args {
+		if params[i].k == "func" {
+			if id, ok := a.(*ast.Ident); ok && t.lookup(id.Name) == nil {
+				if d, ok := t.funcs[t.sp.pkg+"."+id.Name]; ok && len(d.spec.extra) == 0 && d.spec.fx == "" && len(d.params) == len(params[i].params) && len(d.rets) == 1 && d.rets[0].eq(params[i].res) {
+					f := d.ns() + leanDefName(id.Name)
+					if params[i].part && !d.partial {
+						f = "(fun a b => some (" + f + " a b))"
+					} else if !params[i].part && d.partial {
+						t.fail("%s: the function %s can panic", name, id.Name)
+						return nil, false, false
+					}
+					out[i] = f
+					continue
+				}
+			}
+			if id, ok := a.(*ast.Ident); ok && t.lookup(id.Name) != nil && t.lookup(id.Name).k == "func" {
+				out[i] = t.ln(id.Name)
+				continue
+			}
+			t.fail("%s: argument %d must be a translated function", name, i+1)
+			return nil, false, false
+		}
 		x := t.exprH(a, params[i])
 		if t.err != nil {
 			return nil, false, false
@@ -837,6 +903,10 @@ func (t *ftr) call(e *ast.CallExpr) ex {
 			if !ok {
 				return ex{"sorry", tBad, false}
 			}
+			if ty.part {
+				t.partial = true
+				return ex{"(← " + t.ln(id.Name) + " " + strings.Join(a, " ") + ")", ty.res, true}
+			}
 			return ex{"(" + t.ln(id.Name) + " " + strings.Join(a, " ") + ")", ty.res, p}
 		}
 		switch id.Name {
@@ -851,7 +921,10 @@ func (t *ftr) call(e *ast.CallExpr) ex {
 		case "len":
 			if len(e.Args) == 1 {
 				x := t.expr(e.Args[0])
-				if x.t.k != "text" && x.t.k != "texts" && x.t.k != "merrs" && x.t.k != "matchers" {
+				switch x.t.k {
+				case "text", "texts", "merrs", "matchers", "map1", "map2", "smap", "set":
+					// (a Go map holds each key once, as the association lists built by map*Set do)
+				default:
 					return t.fail("len of %s", x.t.lean())
 				}
 				return ex{"(GoSnaps.GoSem.len " + x.s + ")", tInt, x.p}
@@ -1527,7 +1600,7 @@ func (t *ftr) forStmt(s *ast.ForStmt, ind string, res *ty) string {
 	cond, ok2 := s.Cond.(*ast.BinaryExpr)
 	post, ok3 := s.Post.(*ast.IncDecStmt)
 	if !ok1 || !ok2 || !ok3 || init.Tok != token.DEFINE || len(init.Lhs) != 1 || len(init.Rhs) != 1 ||
-		cond.Op != token.LSS || post.Tok != token.INC {
+		(cond.Op != token.LSS && cond.Op != token.LEQ) || post.Tok != token.INC {
 		t.stmtFail(&b, ind, "for loop is not of the form `for i := lo; i < hi; i++`")
 		return b.String()
 	}
@@ -1555,7 +1628,12 @@ func (t *ftr) forStmt(s *ast.ForStmt, ind string, res *ty) string {
 		t.stmtFail(&b, ind, "loop bounds are not int")
 		return b.String()
 	}
-	fmt.Fprintf(&b, "%sfor %s in GoSnaps.GoSem.intRange %s %s do\n", ind, leanIdent(iv.Name), lo.s, hi.s)
+	his := hi.s
+	if cond.Op == token.LEQ {
+		// i <= hi: one more iteration (no overflow: hi is a snapshot count)
+		his = "(" + hi.s + " + (1 : Int))"
+	}
+	fmt.Fprintf(&b, "%sfor %s in GoSnaps.GoSem.intRange %s %s do\n", ind, leanIdent(iv.Name), lo.s, his)
 	t.push()
 	t.bind(iv.Name, tInt)
 	b.WriteString(t.block(s.Body.List, ind+"  ", res))
@@ -1589,6 +1667,9 @@ func (t *ftr) rangeStmt(s *ast.RangeStmt, ind string, res *ty) string {
 	if t.err != nil {
 		b.WriteString(ind + "sorry\n")
 		return b.String()
+	}
+	if xs.t.k == "map1" {
+		return t.rangeMap1(s, xs, k, v, ind, res)
 	}
 	if xs.t.k != "texts" && xs.t.k != "merrs" && xs.t.k != "matchers" {
 		t.stmtFail(&b, ind, "range over %s (only []string is supported; a string ranges over runes)", xs.t.lean())
@@ -1659,8 +1740,56 @@ func (t *ftr) rangeStmt(s *ast.RangeStmt, ind string, res *ty) string {
 }
 
 // aliasing discipline for index-assigned slices (see the header comment)
+// mapLike: names of the function that denote maps / sets (index assignment on them is a map store,
+// not a slice store: Go maps are reference values, but the translated functions never copy one)
+func mapLike(fd *ast.FuncDecl) map[string]bool {
+	out := map[string]bool{}
+	isMapT := func(e ast.Expr) bool {
+		if _, ok := e.(*ast.MapType); ok {
+			return true
+		}
+		id, ok := e.(*ast.Ident)
+		return ok && id.Name == "set"
+	}
+	for _, f := range fd.Type.Params.List {
+		if isMapT(f.Type) {
+			for _, n := range f.Names {
+				out[n.Name] = true
+			}
+		}
+	}
+	ast.Inspect(fd.Body, func(n ast.Node) bool {
+		as, ok := n.(*ast.AssignStmt)
+		if !ok || as.Tok != token.DEFINE || len(as.Lhs) != 1 || len(as.Rhs) != 1 {
+			return true
+		}
+		id, ok := as.Lhs[0].(*ast.Ident)
+		if !ok {
+			return true
+		}
+		switch r := as.Rhs[0].(type) {
+		case *ast.CompositeLit:
+			if isMapT(r.Type) {
+				out[id.Name] = true
+			}
+		case *ast.CallExpr:
+			if selName(r.Fun) == "make" && len(r.Args) >= 1 && isMapT(r.Args[0]) {
+				out[id.Name] = true
+			}
+			if selName(r.Fun) == "occurrences" {
+				out[id.Name] = true
+			}
+		}
+		return true
+	})
+	return out
+}
+
 func (t *ftr) checkAliasing(fd *ast.FuncDecl, params map[string]bool) {
 	_, indexed := assignedIn(fd.Body)
+	for n := range mapLike(fd) {
+		delete(indexed, n)
+	}
 	for n := range indexed {
 		if params[n] {
 			t.fail("index assignment to the parameter %s (the effect on the caller's slice is not modelled)", n)
@@ -1939,7 +2068,7 @@ func extractFuncs(pkgs map[string]*pkgInfo, F *facts) (string, string) {
 	bio.WriteString("-- GENERATED by tools/extract (funcs.go, funcsio.go): transliteration of the effectful Go functions\n")
 	bio.WriteString("-- (file system, scanners, registries, Match* flows); run-time semantics: GoSnaps/GoIO.lean.\n")
 	bio.WriteString("-- Do not edit: regenerated from the current sources on every run.\n")
-	bio.WriteString("import GoSnaps.GoIO\nimport GoSnaps.Generated.Funcs\nset_option linter.unusedVariables false\nnamespace GoSnaps.Generated.FuncsIO\n")
+	bio.WriteString("import GoSnaps.GoIO\nimport GoSnaps.Natural\nimport GoSnaps.Generated.Funcs\nset_option linter.unusedVariables false\nnamespace GoSnaps.Generated.FuncsIO\n")
 	F.Funcs = map[string]string{}
 	F.FuncsFailed = map[string]string{}
 	for i := range funcSpecs {
